@@ -19,16 +19,16 @@ Proof. unfold tsend_ids. apply flat_map_app. Qed.
 Lemma proj_app q a b : proj q (a ++ b) = proj q a ++ proj q b.
 Proof. unfold proj. apply flat_map_app. Qed.
 
-Lemma proj1_send_ids q e x :
-  In x (send_ids (proj1 q e)) -> In x (tsend_ids [e]).
+Lemma proj_ev_send_ids q e x :
+  In x (send_ids (proj_ev q e)) -> In x (tsend_ids [e]).
 Proof.
-  destruct e as [h|src dst id y r p|dt|h| |a b e']; cbn [proj1].
+  destruct e as [h|src dst id y r p|dt|h| |a b e']; cbn [proj_ev].
   - intros [].
   - destruct (pair_eqb _ _); cbn; auto.
   - intros [].
   - destruct (fst q =? h); [intros []|destruct (snd q =? h); intros []].
   - intros [].
-  - destruct e'; cbn [proj1]; try (destruct (pair_eqb _ _); cbn; auto; fail); cbn; auto.
+  - destruct e'; cbn [proj_ev]; try (destruct (pair_eqb _ _); cbn; auto; fail); cbn; auto.
 Qed.
 
 Lemma proj_send_ids q es x : In x (send_ids (proj q es)) -> In x (tsend_ids es).
@@ -36,7 +36,7 @@ Proof.
   induction es as [|e es IH]; [intros []|].
   cbn [proj flat_map]. fold (proj q es). rewrite send_ids_app, in_app_iff.
   change (e :: es) with ([e] ++ es). rewrite tsend_ids_app, in_app_iff.
-  intros [H|H]; [left; eapply proj1_send_ids; eauto|right; auto].
+  intros [H|H]; [left; eapply proj_ev_send_ids; eauto|right; auto].
 Qed.
 
 (* a topology whose links are all in their initial state (hosts registered at time 0) *)
@@ -54,7 +54,7 @@ Proof.
   intros q d [Hnd Hinit] Hnr Hal Hex Hf1 Hf2 Hin.
   destruct (touts_in_link_lemma _ t id Hnd Hnr Hin) as (q' & l & Hl & Hx).
   rewrite (Hinit q' l Hl) in Hx. clear l Hl.
-  rewrite proj_app in Hx. cbn [proj flat_map proj1] in Hx. fold (proj q' es2) in Hx.
+  rewrite proj_app in Hx. cbn [proj flat_map proj_ev] in Hx. fold (proj q' es2) in Hx.
   destruct (pair_eqb (pair_of src dst) q') eqn:E.
   - apply pair_eqb_eq in E. subst q'. cbn [app] in Hx. fold q d in Hx.
     revert Hx. apply c03_never_delivered_lemma; auto.
